@@ -155,6 +155,13 @@ Fixpoint scan_loop (st : store) (Ls : list layout) (cur e : key) (limit : nat)
   else Some acc.
 Definition scan (st : store) (Ls : list layout) (s e : key) (limit : nat) := scan_loop st Ls s e limit [].
 
+(* Scan / ReverseScan first refuse limit > MaxRawKVScanLimit (ErrMaxScanLimitExceeded, no request is sent):
+   None = that error *)
+Definition max_raw_kv_scan_limit : N := 10240.
+Definition scan_limit_ok (limit : nat) : bool := N.of_nat limit <=? max_raw_kv_scan_limit.
+Definition client_scan (st : store) (Ls : list layout) (s e : key) (limit : nat) :=
+  if scan_limit_ok limit then Some (scan st Ls s e limit) else None.
+
 (* ReverseScan: for len(keys) < limit && startKey > endKey { RawScan(reverse) on the region whose
    END side contains startKey; startKey = loc.StartKey; if empty break } *)
 Fixpoint rscan_loop (st : store) (Ls : list layout) (cur e : key) (limit : nat)
@@ -169,6 +176,8 @@ Fixpoint rscan_loop (st : store) (Ls : list layout) (cur e : key) (limit : nat)
     end
   else Some acc.
 Definition rscan (st : store) (Ls : list layout) (s e : key) (limit : nat) := rscan_loop st Ls s e limit [].
+Definition client_rscan (st : store) (Ls : list layout) (s e : key) (limit : nat) :=
+  if scan_limit_ok limit then Some (rscan st Ls s e limit) else None.
 
 (* DeleteRange / sendDeleteRangeReq: actualEndKey := endKey; if len(loc.EndKey) > 0 &&
    (len(endKey) == 0 || loc.EndKey < endKey) { actualEndKey = loc.EndKey } *)
@@ -254,6 +263,30 @@ Definition pair_size (kvs : list (list N * entry)) (k : key) : N :=
   N.of_nat (length k) + match find_last kvs k with Some e => N.of_nat (length (e_val e)) | None => 0 end.
 Definition put_chunks (kvs : list (list N * entry)) : list key -> list (list key) :=
   chunk (fun sz => raw_batch_put_size <=? sz) (pair_size kvs).
+
+(* AppendBatches literally: THREE parallel slices (keys, values, ttls) grown together and flushed together;
+   value and ttl of a key come from the last-wins maps keyToValue / keyToTTL (ttl 0 when the call has no ttls).
+   A request (RawBatchPutRequest) carries Pairs = zip keys values, Ttls = ttls, Ttl = first ttl, ForCas. *)
+Record batch3 := mkBatch3 { b_keys : list (list N); b_vals : list (list N); b_ttls : list N }.
+Definition kv_of (kvs : list (list N * entry)) (k : key) : list N :=
+  match find_last kvs k with Some e => e_val e | None => [] end.
+Definition ttl_of (kvs : list (list N * entry)) (k : key) : N :=
+  match find_last kvs k with Some e => e_ttl e | None => 0 end.
+Fixpoint append_batches_aux (kvs : list (list N * entry)) (ks : list key)
+         (ck : list (list N)) (cv : list (list N)) (ct : list N) (size : N) : list batch3 :=
+  match ks with
+  | [] => if is_nil ck then [] else [mkBatch3 (rev ck) (rev cv) (rev ct)]
+  | k :: r =>
+      if raw_batch_put_size <=? size
+      then mkBatch3 (rev ck) (rev cv) (rev ct)
+           :: append_batches_aux kvs r [k] [kv_of kvs k] [ttl_of kvs k] (pair_size kvs k)
+      else append_batches_aux kvs r (k :: ck) (kv_of kvs k :: cv) (ttl_of kvs k :: ct) (size + pair_size kvs k)
+  end.
+Definition append_batches (kvs : list (list N * entry)) (ks : list key) : list batch3 :=
+  append_batches_aux kvs ks [] [] [] 0.
+(* what one request must carry for a key batch: the triples of its keys, position by position *)
+Definition batch3_of (kvs : list (list N * entry)) (ks : list key) : batch3 :=
+  mkBatch3 ks (map (kv_of kvs) ks) (map (ttl_of kvs) ks).
 
 (* one round = one grouping under a layout, every region group cut into sub-batches; each
    sub-batch (region start, index) is Served, Bounced with a region error (then re-grouped under
